@@ -104,10 +104,17 @@ pub fn list_to_vector(vm: &mut Vm) -> Result<VCell, Error> {
             return Err(ExpectedPairButFound(vm.heap.get_as_cell(&list)));
         }
     }
+    let original = list.clone();
     let mut outv = vec![];
     while list.is_pair() {
         outv.push(list.as_car()?);
         list = vm.heap.get(&list.as_cdr()?);
+    }
+    if !list.is_nil() {
+        return Err(InvalidSyntax(format!(
+            "{:#} is an improper list",
+            vm.heap.get_as_cell(&original)
+        )));
     }
     Ok(VCell::vector(outv))
 }
